@@ -356,6 +356,35 @@ def max_packed_stream(rng):
     _MAXPACK['v'] = {'bytes': b, 'out': data[:n], 'stats': {'Z3': 1}, 'big': None, 'ref': 'single chunk with compressed-size field 0xFFFF (payload from the crate\'s encoder)'}
     return _MAXPACK['v']
 
+def gen_l2_badcopy_streams(rng, count):
+    """LZMA2 streams (malformed on purpose) in which a dictionary reset happens in MID-STREAM - by an uncompressed chunk (0x01) or
+    by a compressed one - and a later chunk without dictionary reset copies from before that reset; the chunk declares room for
+    the whole copy, so a decoder that performs the copy finishes successfully.  -> list of bytes"""
+    reqs, metas = [], []
+    for k in range(count):
+        lc, lp, pb3 = rand_props(rng, lzma2=True)
+        pre0 = rng.bytes(rng.range(5, 60)); pre = rng.bytes(rng.range(1, 40))
+        p2 = ProgBuilder(None); p2.n = len(pre)
+        for _ in range(rng.range(0, 12)): p2.random_sym(rng, 2)
+        blen = rng.choice([2, 3, pick_len(rng)])
+        p2.syms.append('M%d,%d' % (p2.n + rng.range(1, len(pre0)), blen))
+        first = rng.choice(['U1:%s' % hx(pre0), 'Z3:%d,%d,%d:0:%s' % (lc, lp, pb3, '.'.join('L%d' % x for x in pre0))])
+        mid = rng.choice(['U1:%s' % hx(pre), 'U1:%s' % hx(pre), 'Z3:%d,%d,%d:0:%s' % (lc, lp, pb3, '.'.join('L%d' % x for x in pre))])
+        reqs.append('ref_lzma2 lenient=1 chunks=%s/%s/Z2:%d,%d,%d:0:%s' % (first, mid, lc, lp, pb3, p2.text()))
+        metas.append((blen, [i for i, c in enumerate((first, mid)) if c[0] == 'Z']))
+    out = []
+    for enc, (blen, zs) in zip(ref_encode(reqs), metas):
+        if enc is None: raise InfraError('lenient serialiser rejected a bad-copy stream')
+        b = enc[0]
+        def set_unpacked(b, w, un):
+            return b[:w['off']] + bytes([(w['control'] & 0xE0) | ((un - 1) >> 16)]) + struct.pack('>H', (un - 1) & 0xFFFF) + b[w['off'] + 3:]
+        for i in zs:                                   # the lenient serialiser adds one byte to every compressed chunk: take it back from the good ones
+            w = walk_lzma2(b)[i]; b = set_unpacked(b, w, w['unpacked'] - 1)
+        w = [x for x in walk_lzma2(b) if x['kind'] == 'lzma'][-1]
+        b = set_unpacked(b, w, w['unpacked'] + blen - 1)   # room for the whole copy
+        out.append(b)
+    return out
+
 def gen_lzma2_streams(rng, count, big_sizes=()):
     reqs, metas = [], []
     bigs = list(big_sizes)
@@ -679,6 +708,29 @@ def run_C17(ck):
                     newpk = pk - 1
                     hdr = bytearray(b[o:o + ch['hdr_len']]); hdr[3:5] = struct.pack('>H', newpk - 1)
                     add('packed_too_small', b[:o] + bytes(hdr) + b[o + ch['hdr_len']:o + ch['hdr_len'] + newpk] + b[o + ch['hdr_len'] + pk:], wrap)
+                    # the compressed-size field alone reduced to ANY smaller value (1 .. pk-1, often below the five coder
+                    # init bytes), every other byte left in place (C17_short_packed_size_rejected)
+                    m = rng.choice([1, 2, 3, 4, rng.range(1, pk - 1)]); m = min(m, pk - 1)
+                    hdr2 = bytearray(b[o:o + ch['hdr_len']]); hdr2[3:5] = struct.pack('>H', m - 1)
+                    add('packed_field_reduced', b[:o] + bytes(hdr2) + b[o + ch['hdr_len']:], wrap)
+    # chunks whose payload is exactly the five coder init bytes (a short rep or two cost less than a byte), declaring 1..4
+    treqs = []
+    for k in range(12 if ck.tier == 'quick' else 60):
+        lc, lp, pbits = rand_props(rng, lzma2=True)
+        pre = rng.bytes(rng.range(1, 20))
+        first = rng.choice(['U1:%s' % hx(pre), 'Z3:%d,%d,%d:0:%s' % (lc, lp, pbits, '.'.join('L%d' % x for x in pre))])
+        cls = rng.choice([1, 2]) if first[0] == 'U' else rng.choice([0, 1, 2])
+        props = '%d,%d,%d' % rand_props(rng, lzma2=True) if cls == 2 else ('-' if first[0] == 'Z' or cls != 2 else '-')
+        if first[0] == 'U' and cls != 2: cls, props = 2, '%d,%d,%d' % (lc, lp, pbits)      # no properties known yet
+        treqs.append('ref_lzma2 chunks=%s/Z%d:%s:0:%s' % (first, cls, props, rng.choice(['S', 'S.S', 'S'])))
+    for enc in ref_encode(treqs):
+        if enc is None: continue
+        b = enc[0]
+        ch = [x for x in walk_lzma2(b) if x['kind'] == 'lzma'][-1]
+        if ch['payload_len'] != 5: continue
+        for m in (1, 2, 3, 4):
+            hdr2 = bytearray(b[ch['off']:ch['off'] + ch['hdr_len']]); hdr2[3:5] = struct.pack('>H', m - 1)
+            add('packed_below_coder_init', b[:ch['off']] + bytes(hdr2) + b[ch['off'] + ch['hdr_len']:], False)
     # fully consistent big chunks whose control byte loses bit 7: 0xFF -> 0x7F (2 MiB band), 0xE1.. -> 0x61.. etc.
     breqs = []
     for size in ([rng.range(2031617, 2097152), rng.range(65537, 131072)] if ck.tier == 'quick' else
@@ -1094,8 +1146,21 @@ def run_C09(ck):
             pbld = ProgBuilder(None)
             for _ in range(rng.range(0, 20)): pbld.random_sym(rng, 2)
             desc = bad_copy(pbld, None)
-            reqs.append('ref_lzma2 lenient=1 chunks=U1:%s/Z3:%d,%d,%d:0:%s' % (hx(pre), lc, lp, pb3, pbld.text()))
-            metas.append({'api': 'lzma2', 'desc': desc, 'produced': pbld.n, 'before_reset': len(pre), 'last_sym': pbld.syms[-1]})
+            if rng.chance(1, 2):
+                reqs.append('ref_lzma2 lenient=1 chunks=U1:%s/Z3:%d,%d,%d:0:%s' % (hx(pre), lc, lp, pb3, pbld.text()))
+                metas.append({'api': 'lzma2', 'desc': desc, 'produced': pbld.n, 'before_reset': len(pre), 'last_sym': pbld.syms[-1]})
+            else:
+                # the reset is done by an UNCOMPRESSED chunk (control 0x01) in mid-stream; the copy sits in a later chunk that
+                # resets only the state and reaches data from before that reset
+                pre0 = rng.bytes(rng.range(5, 60))
+                p2 = ProgBuilder(None); p2.n = len(pre)
+                for _ in range(rng.range(0, 12)): p2.random_sym(rng, 2)
+                dd = p2.n + rng.range(1, len(pre0))
+                p2.syms.append(rng.choice(['M%d,%d' % (dd, pick_len(rng)), 'M%d,2' % dd]))
+                first = rng.choice(['U1:%s' % hx(pre0), 'Z3:%d,%d,%d:0:%s' % (lc, lp, pb3, '.'.join('L%d' % x for x in pre0))])
+                reqs.append('ref_lzma2 lenient=1 chunks=%s/U1:%s/Z2:%d,%d,%d:0:%s' % (first, hx(pre), lc, lp, pb3, p2.text()))
+                metas.append({'api': 'lzma2', 'desc': 'match dist %d > %d bytes since the uncompressed reset chunk' % (dd, p2.n), 'produced': p2.n, 'before_reset': len(pre0),
+                              'last_sym': p2.syms[-1], 'fix_first': first[0] == 'Z', 'raw_reset_mid': True})
     for k in range(60 if quick else 400):
         lc, lp, pb3 = rand_props(rng)
         first = rng.choice(['S', 'R0,%d' % pick_len(rng), 'R1,%d' % pick_len(rng), 'R3,%d' % pick_len(rng), 'M1,%d' % pick_len(rng)])
@@ -1499,6 +1564,10 @@ def run_C13(ck):
                 e = w['off'] + w['hdr_len'] + w['payload_len']
                 mod = mod[:e] + (bytes(k) if rng.chance(1, 2) else rng.bytes(k)) + mod[e:]
             inputs.append(('lzma2_dec in=%s' % hx(mod), 'slack'))
+    # a copy reaching data from before a mid-stream dictionary reset: rejected by a correct decoder whatever the reader does;
+    # a decoder whose reset handling depends on what happens to be buffered shows here
+    for b in gen_l2_badcopy_streams(rng, 20 if quick else 120):
+        inputs.append(('lzma2_dec in=%s' % hx(b), 'copy_across_reset'))
     small = [p for p in pool if len(p['bytes']) < 2000] or pool
     for f in gen_xz_files(rng, 25 if quick else 150, small):
         inputs.append(('xz_dec in=%s' % hx(f['bytes']), 'valid'))
